@@ -374,6 +374,19 @@ theorem tick_effect (s s' : PState) (now : Int) (room : Nat) (outs : List Out)
     obtain ⟨a, b⟩ := cleanupAll_keeps _ _ _ _ _ _ _ hc
     exact ⟨a, b, rfl, rfl⟩
 
+/-- **However large the map.** A pending entry survives a whole cleanup tick in any aggregation state that contains it —
+there is no bound on the number of other entries (a flood of 10 000 digests this node never observed changes nothing for the
+node's own pending message), and the entry after the tick is still the node's own, unsubmitted, with its signatures. This is the
+model-level counterpart of the scale family of the processor harness (whose flood the driver does not replay). -/
+theorem pending_survives_tick_in_any_state (s s' : PState) (g : GSet) (hg : s.gs = some g) (now : Int) (room : Nat) (outs : List Out)
+    (h : handleCleanup s now room = .ok s' outs) (d : Bytes) (st : VState) (hm : (d, st) ∈ s.agg) (hp : Pending s.db st)
+    (r : Bool) :
+    ∃ st', (d, st') ∈ s'.agg ∧ st'.ourMsg = st.ourMsg ∧ st'.ourVAA = st.ourVAA ∧ st'.submitted = false ∧
+      st'.signatures = st.signatures := by
+  obtain ⟨st', o, hk, h1, h2, h3, h4⟩ := no_early_discard g s.db now r st hp
+  have := (tick_effect s s' now room outs h).1 d st st' r o hm (by rw [hg]; exact hk)
+  exact ⟨st', this, h1, h2, h3, h4⟩
+
 /-- An entry followed through a sequence of ticks (times and queue states arbitrary): `none` once it has been deleted. -/
 def runTicks (g : GSet) (db : List (VaaId × Bytes)) : VState → List (Int × Bool) → Option VState
   | st, [] => some st
